@@ -76,6 +76,29 @@ func chanField(v ssa.Value) *types.Var {
 	return f
 }
 
+// precededBy: on every path from the entry of fn to instruction at, an instruction satisfying pred is
+// executed first - within fn, or (when fn is a helper) before every call of fn in its callers (depth levels up).
+// Calls started with go / defer do not count as callers that precede.
+func precededBy(p *core.Program, fn *ssa.Function, at ssa.Instruction, pred func(ssa.Instruction) bool, depth int) bool {
+	ensureCallSites(p)
+	if core.PathSearch(fn, nil, func(y ssa.Instruction) bool { return y == at }, pred, nil) == nil {
+		return true
+	}
+	cs := gCallSites[fn]
+	if depth == 0 || len(cs) == 0 {
+		return false
+	}
+	for _, c := range cs {
+		if _, isCall := c.(*ssa.Call); !isCall {
+			return false
+		}
+		if !precededBy(p, c.Parent(), c, pred, depth-1) {
+			return false
+		}
+	}
+	return true
+}
+
 // gCallSites: static call / go / defer sites per repo function (ssa.Function has no referrers).
 var gCallSites map[*ssa.Function][]ssa.Instruction
 var gCallSitesFor *core.Program
@@ -348,35 +371,55 @@ func checkC12(p *core.Program, r *core.Report) {
 	r.Floor(R1, 1)
 	r.Floor(R2, 1)
 
-	// R3 on the write entry
+	// R3 on the write entry (the enqueue itself may live in a package-local helper the entry delegates to)
 	w := a.writeFn
-	var enq []ssa.Instruction
-	core.EachInstr(w, func(in ssa.Instruction) {
-		switch x := in.(type) {
-		case *ssa.Send:
-			if chanField(x.Chan) != nil {
-				enq = append(enq, in)
-			}
-		case *ssa.Select:
-			for _, st := range x.States {
-				if st.Dir == types.SendOnly && chanField(st.Chan) != nil {
-					enq = append(enq, in)
+	findEnq := func(fn *ssa.Function) []ssa.Instruction {
+		var out []ssa.Instruction
+		core.EachInstr(fn, func(in ssa.Instruction) {
+			switch x := in.(type) {
+			case *ssa.Send:
+				if chanField(x.Chan) != nil {
+					out = append(out, in)
+				}
+			case *ssa.Select:
+				for _, st := range x.States {
+					if st.Dir == types.SendOnly && chanField(st.Chan) != nil {
+						out = append(out, in)
+					}
 				}
 			}
-		}
-	})
+		})
+		return out
+	}
+	host := w
+	var viaCall ssa.Instruction
+	enq := findEnq(w)
+	if len(enq) == 0 {
+		core.EachInstr(w, func(in ssa.Instruction) {
+			if c, ok := in.(*ssa.Call); ok && viaCall == nil {
+				if t := c.Call.StaticCallee(); t != nil && p.PkgShort(t) == "ws" && t.Blocks != nil {
+					if e := findEnq(t); len(e) > 0 {
+						host, viaCall, enq = t, in, e
+					}
+				}
+			}
+		})
+	}
 	if len(enq) == 0 {
 		r.Fail(R3, "write-entry "+p.FnName(w)+" enqueue", p.Pos(w.Pos()), "no enqueue (channel send) found in the write entry")
 	}
 	for _, e := range enq {
 		key := "write-entry " + p.FnName(w) + " flag-before-enqueue"
-		if core.Guarded(e, a.notClosedEdge) {
+		if core.Guarded(e, a.notClosedEdge) || (viaCall != nil && core.Guarded(viaCall, a.notClosedEdge)) {
 			r.OK(R3, key, p.Pos(e.Pos()), "every path to the enqueue reads the closed flag as false")
 		} else {
 			r.Fail(R3, key, p.Pos(e.Pos()), "a path reaches the enqueue without having read the closed flag as false")
 		}
 	}
 	isEnq := func(in ssa.Instruction) bool {
+		if viaCall != nil && in == viaCall {
+			return true
+		}
 		for _, e := range enq {
 			if e == in {
 				return true
@@ -385,32 +428,38 @@ func checkC12(p *core.Program, r *core.Report) {
 		return false
 	}
 	// nil-error returns must pass the enqueue; for a select-enqueue the send arm must have been taken.
-	core.EachInstr(w, func(in ssa.Instruction) {
-		ret, ok := in.(*ssa.Return)
-		if !ok || len(ret.Results) == 0 {
-			return
-		}
-		res := core.ResultOf(ret, len(ret.Results)-1)
-		check := func(target func(ssa.Instruction) bool, what string) {
-			key := "write-entry " + p.FnName(w) + " nil-return-only-after-enqueue"
-			if bad := core.PathSearch(w, nil, target, isEnq, nil); bad != nil {
-				r.Fail(R3, key, p.Pos(bad.Pos()), "a path returns a nil error without having enqueued the message ("+what+")")
-			} else {
-				r.OK(R3, key, p.Pos(ret.Pos()), "all nil-error returns pass the enqueue")
+	nilReturns := func(fn *ssa.Function) {
+		core.EachInstr(fn, func(in ssa.Instruction) {
+			ret, ok := in.(*ssa.Return)
+			if !ok || len(ret.Results) == 0 {
+				return
 			}
-		}
-		if core.IsNilConst(res) {
-			check(func(x ssa.Instruction) bool { return x == ret }, "constant nil")
-		} else if phi, ok := res.(*ssa.Phi); ok {
-			for k, e := range phi.Edges {
-				if core.IsNilConst(e) {
-					pred := phi.Block().Preds[k]
-					last := pred.Instrs[len(pred.Instrs)-1]
-					check(func(x ssa.Instruction) bool { return x == last }, "nil via phi")
+			res := core.ResultOf(ret, len(ret.Results)-1)
+			check := func(target func(ssa.Instruction) bool, what string) {
+				key := "write-entry " + p.FnName(w) + " nil-return-only-after-enqueue"
+				if bad := core.PathSearch(fn, nil, target, isEnq, nil); bad != nil {
+					r.Fail(R3, key, p.Pos(bad.Pos()), "a path returns a nil error without having enqueued the message ("+what+")")
+				} else {
+					r.OK(R3, key, p.Pos(ret.Pos()), "all nil-error returns pass the enqueue")
 				}
 			}
-		}
-	})
+			if core.IsNilConst(res) {
+				check(func(x ssa.Instruction) bool { return x == ret }, "constant nil")
+			} else if phi, ok := res.(*ssa.Phi); ok {
+				for k, e := range phi.Edges {
+					if core.IsNilConst(e) {
+						pred := phi.Block().Preds[k]
+						last := pred.Instrs[len(pred.Instrs)-1]
+						check(func(x ssa.Instruction) bool { return x == last }, "nil via phi")
+					}
+				}
+			}
+		})
+	}
+	nilReturns(w)
+	if host != w {
+		nilReturns(host)
+	}
 	// when the enqueue is a select, the nil return must be on the send arm only
 	for _, e := range enq {
 		sel, ok := e.(*ssa.Select)
@@ -424,7 +473,7 @@ func checkC12(p *core.Program, r *core.Report) {
 			}
 		}
 		// find returns reachable when index != sendIdx: the select's index is extracted and compared
-		bad := selectNilReturnOffArm(w, sel, sendIdx)
+		bad := selectNilReturnOffArm(host, sel, sendIdx)
 		key := "write-entry " + p.FnName(w) + " select-arms"
 		if bad != nil {
 			r.Fail(R3, key, p.Pos(bad.Pos()), "the escape/default arm of the enqueue select returns a nil error")
